@@ -181,7 +181,13 @@ func cmdRace(args []string) {
 		var ws []func(*int32, *int64)
 		for w := 0; w < 6; w++ {
 			ws = append(ws, loop(func(i int) {
-				off, _ := c.Insert(func(r column.Row) error { r.SetInt64("a", int64(i)); r.SetString("s", "n"); return nil })
+				off, _ := c.Insert(func(r column.Row) error {
+					r.SetInt64("a", int64(i))
+					if i%3 != 0 { // every third row has no value in the column the sorted index follows
+						r.SetString("s", "n")
+					}
+					return nil
+				})
 				if i%2 == 0 {
 					c.DeleteAt(off)
 				}
